@@ -163,7 +163,9 @@ func TokLess(a, b string) bool {
 	return ta < tb
 }
 
-func sortToks(xs []string) { sort.SliceStable(xs, func(i, j int) bool { return TokLess(xs[i], xs[j]) }) }
+func sortToks(xs []string) {
+	sort.SliceStable(xs, func(i, j int) bool { return TokLess(xs[i], xs[j]) })
+}
 
 // ---- coins, numbers, times
 
